@@ -110,7 +110,16 @@ func (g *dgen) validation(kind string, loc Loc) *spec.Validation {
 		if unsigned && base < 0 {
 			base = -base
 		}
-		switch t.Draw("numval", 6) {
+		switch t.Draw("numval", 9) {
+		case 6:
+			v.ExclMin, v.ExclMax = fp(base), fp(base+2+float64(t.Draw("span", 30)))
+			g.feat("val:excl_min+excl_max")
+		case 7:
+			v.ExclMin, v.Max = fp(base), fp(base+1+float64(t.Draw("span", 30)))
+			g.feat("val:excl_min+max")
+		case 8:
+			v.Min, v.ExclMax = fp(base), fp(base+1+float64(t.Draw("span", 30)))
+			g.feat("val:min+excl_max")
 		case 0:
 			v.Min = fp(base)
 			g.feat("val:min")
